@@ -29,6 +29,8 @@ pub struct ByteScn {
     pub kind: Kind,
     /// decode through `arbitrary_take_rest` instead of `arbitrary`
     pub take_rest: bool,
+    /// 0 = a library piece type (`kind`); 1 = the recursive user type `Curve`; 2 = the zero-sized `Zero`
+    pub user: u8,
     pub bytes: Vec<u8>,
     /// header length of the intended encoding (flags + end bytes + terminator); faults enumerate inside it
     pub header_len: usize,
@@ -119,11 +121,46 @@ fn resolve(mv: Move, ends: &[f64]) -> f64 {
     }
 }
 
+/// User-defined piece types (the impl under test is generic): a RECURSIVE one — `derive(Arbitrary)`
+/// threads a recursion depth through `size_hint`, which the impl of `Piecewise<T>` must not reset — and a
+/// ZERO-SIZED one.
+#[derive(Debug, Clone, Arbitrary)]
+pub enum Curve {
+    Leaf(Poly1),
+    Nested(Piecewise<Curve>),
+}
+
+impl Evaluate for Curve {
+    fn evaluate(&self, x: f64) -> f64 {
+        match self {
+            Curve::Leaf(p) => p.evaluate(x),
+            Curve::Nested(f) => {
+                if f.segments.is_empty() {
+                    0.0
+                } else {
+                    f.evaluate(x)
+                }
+            }
+        }
+    }
+}
+
+#[derive(Debug, Clone, Copy, Arbitrary)]
+pub struct Zero;
+
+impl Evaluate for Zero {
+    fn evaluate(&self, _x: f64) -> f64 {
+        0.0
+    }
+}
+
 fn check_typed<T>(scn: &ByteScn, cov: &mut Cov, prog: &Progress) -> Result<u64, (String, String)>
 where
-    T: Piece + for<'a> Arbitrary<'a>,
+    T: Evaluate + for<'a> Arbitrary<'a> + 'static,
 {
     prog.tick();
+    // what a fuzz harness asks first; must return (and, for a recursive user type, terminate)
+    let _ = guard(|| <Piecewise<T> as Arbitrary>::size_hint(0)).map_err(|p| ("panic".to_string(), format!("<Piecewise<_> as Arbitrary>::size_hint panicked: {p}")))?;
     cov.events += 1;
     let want = model_expected(&scn.bytes);
     let got = match decode::<T>(&scn.bytes, scn.take_rest) {
@@ -189,11 +226,21 @@ where
     let ends: Vec<f64> = f.segments.iter().map(|s| s.end).collect();
     let xs: Vec<f64> = scn.moves.iter().map(|&m| resolve(m, &ends)).collect();
     {
-        let t: &dyn Target = &f;
-        let mut ev = match guard(|| t.evaluator()) {
+        struct Direct<'a, T>(&'a Piecewise<T>);
+        impl<T: Evaluate> Direct<'_, T> {
+            fn direct(&self, x: f64) -> f64 {
+                self.0.evaluate(x)
+            }
+            fn stream<'b>(&'b self, feed: SimFeed) -> impl Iterator<Item = f64> + 'b {
+                self.0.evaluate_v(feed)
+            }
+        }
+        let t = Direct(&f);
+        let mut evaluator = match guard(|| PiecewiseEvaluator::new(&f.segments)) {
             Ok(e) => e,
             Err(p) => return Err(("panic".into(), format!("PiecewiseEvaluator::new panicked on a decoded function: {p}"))),
         };
+        let mut ev = |x: f64| evaluator.evaluate(x);
         for &x in &xs {
             prog.tick();
             cov.events += 1;
@@ -263,6 +310,17 @@ where
 }
 
 pub fn check_one(scn: &ByteScn, cov: &mut Cov, prog: &Progress) -> Result<u64, (String, String)> {
+    match scn.user {
+        1 => {
+            cov.hit("user_piece_type_recursive");
+            return check_typed::<Curve>(scn, cov, prog);
+        }
+        2 => {
+            cov.hit("user_piece_type_zero_sized");
+            return check_typed::<Zero>(scn, cov, prog);
+        }
+        _ => {}
+    }
     match scn.kind {
         Kind::P(0) => check_typed::<Poly0>(scn, cov, prog),
         Kind::P(1) => check_typed::<Poly1>(scn, cov, prog),
@@ -318,6 +376,11 @@ fn gen_scn(rng: &mut Rng, _tier: Tier) -> ByteScn {
         _ => Kind::P(rng.below(9) as u8),
     };
     let take_rest = rng.chance(1, 4);
+    let user: u8 = match rng.below(25) {
+        0 => 1,
+        1 => 2,
+        _ => 0,
+    };
     let moves: Vec<Move> = (0..rng.usize_in(1, 6))
         .map(|_| {
             let i = rng.usize_in(0, 15);
@@ -336,7 +399,7 @@ fn gen_scn(rng: &mut Rng, _tier: Tier) -> ByteScn {
         let len = rng.usize_in(0, 80);
         let bytes: Vec<u8> = (0..len).map(|_| rng.next_u64() as u8).collect();
         let header_len = bytes.len().min(40);
-        return ByteScn { kind, take_rest, bytes, header_len, moves };
+        return ByteScn { kind, take_rest, user, bytes, header_len, moves };
     }
     let n = match rng.below(20) {
         0 => 0,
@@ -440,7 +503,7 @@ fn gen_scn(rng: &mut Rng, _tier: Tier) -> ByteScn {
             bytes.extend_from_slice(&v.to_bits().to_le_bytes());
         }
     }
-    ByteScn { kind, take_rest, bytes, header_len, moves }
+    ByteScn { kind, take_rest, user, bytes, header_len, moves }
 }
 
 /// Inputs longer than this are "long": their fault positions are sampled, not enumerated.
@@ -541,6 +604,7 @@ fn to_json(scn: &ByteScn) -> Value {
         "world": "byte-source",
         "piece_type": scn.kind.name(),
         "entry_point": if scn.take_rest { "arbitrary_take_rest" } else { "arbitrary" },
+        "user_piece_type": match scn.user { 1 => "Curve (recursive enum deriving Arbitrary)", 2 => "Zero (zero-sized)", _ => "none" },
         "bytes_hex": scn.bytes.iter().map(|b| format!("{b:02x}")).collect::<String>(),
         "header_len": scn.header_len,
         "decoded_header_for_readers": fj_list(&ends),
@@ -587,7 +651,12 @@ fn from_json(v: &Value) -> Result<ByteScn, String> {
             })
         })
         .collect::<Result<Vec<_>, String>>()?;
-    Ok(ByteScn { kind, take_rest, bytes, header_len, moves })
+    let user = match v.get("user_piece_type").and_then(|u| u.as_str()) {
+        Some(s) if s.starts_with("Curve") => 1,
+        Some(s) if s.starts_with("Zero") => 2,
+        _ => 0,
+    };
+    Ok(ByteScn { kind, take_rest, user, bytes, header_len, moves })
 }
 
 pub struct C19;
